@@ -355,8 +355,13 @@ def rootSpansAux : Str → List Char → Str → List Str → Except SpanErr (Li
       | [] => .error (.noOpening c)
     else rootSpansAux cs st (c :: cur) done
 
+/-- the empty span after a trailing comma is not an element of the array literal the select list becomes (repair 9447a17):
+dropped when it is not the only span -/
+def dropTrailingEmptySpan (l : List Str) : List Str :=
+  if 1 < l.length ∧ l.getLast? = some [] then l.dropLast else l
+
 /-- `parse_root_bracket_level_text_spans` -/
-def rootSpans (s : Str) : Except SpanErr (List Str) := (rootSpansAux s [] [] []).map (·.map jsTrim)
+def rootSpans (s : Str) : Except SpanErr (List Str) := (rootSpansAux s [] [] []).map (fun l => dropTrailingEmptySpan (l.map jsTrim))
 
 /-- the single left-to-right pass `replace(/\\([\\'"nrt])/g, …)` of `unquote_string`: the escapes that
 `js_string_escape_column_name` writes are undone, every other backslash stays -/
